@@ -80,9 +80,6 @@ CRASH_KEYS = {
 K_BADFILE = "error-file-is-not-a-file-name:type_check._type_check_local_reference"
 K_ENUM_ORD = "enum-operands-to-ordering-comparison-accepted"
 K_ENUM_VALUE = "enum-value-of-enum-type-accepted"
-K_ENUM_VALUE_BOOL = "enum-value-of-boolean-type-accepted"
-K_PASS_ENUM = "passed-enum-parameter-of-a-different-enum-accepted"
-K_ARRAY_SUB = "array-length-with-non-integer-subexpression-rejected"
 
 
 def classify_message(msg):
@@ -453,11 +450,21 @@ def oracle(case, out):
         if g["bad"]:
             return ("an error message carries a non-string source_file (%s): it cannot be rendered "
                     "(embossc raises TypeError)" % g["msg"]), K_BADFILE
+    if case["expect"] == "lines":
+        want = set((f, l) for f, ls in case["lines"].items() for l in ls)
+        got = set((g["file"], int(g["loc"].split(":")[0])) for g in out.get("groups", [])
+                  if not g["syn"] and g["loc"] and g["loc"][0].isdigit())
+        if out["kind"] != "rejected":
+            return "module breaking rules on %d lines: %s" % (len(want), out["kind"]), None
+        missing, extra = sorted(want - got), sorted(got - want)
+        if missing or extra:
+            return ("offending lines without an error: %s; well-typed lines with an error: %s" % (
+                missing[:8], [(f, l, [g["msg"] for g in out["groups"] if g["file"] == f and
+                                      g["loc"].startswith("%d:" % l)][:1]) for f, l in extra[:8]])), None
+        return None
     if case["expect"] == "accept":
         if out["kind"] == "rejected":
             key = None
-            if any(g["cls"] == "posArray" for g in out["groups"]) and case.get("array_nonint"):
-                key = K_ARRAY_SUB
             return "well-typed module rejected: %s" % [(g["loc"], g["msg"]) for g in out["groups"]][:3], key
         return None            # accepted, or rejected by a check outside C13 ('other')
     # expect reject
@@ -510,53 +517,98 @@ def testdata_cases():
 
 
 def gen_cases(r, n, tier):
-    """yield case dicts from the generator: valid, then mutants."""
+    """yield case dicts from the generator: valid module sets (1-3 files), then mutants (one
+    rule broken on one line of one file)."""
     for i in range(n):
         maxd = 6
-        # a small share of the valid stream deliberately enters the open findings' predicates
-        flavour = r.choice(["plain"] * 12 + ["array-nonint", "const-bounds", "signed-nonliteral"])
-        m = c13gen.gen_valid(r, maxdepth=maxd, n_items=r.randint(4, 14),
-                             steer_array_bool=flavour != "array-nonint", const_bounds=flavour == "const-bounds",
-                             signed_literal=flavour != "signed-nonliteral")
+        # a small share of the valid stream deliberately enters the open finding's predicate
+        flavour = r.choice(["plain"] * 14 + ["signed-nonliteral"])
+        mods = c13gen.gen_set(r, maxdepth=maxd, n_items=r.randint(4, 14),
+                              signed_literal=flavour != "signed-nonliteral")
+        m = mods["m.emb"]
         ops = {}
-        for s in m.sites:
-            c13gen.ops_of(s["expr"], ops)
-        case = {"text": m.text(), "expect": "accept", "rule": "valid", "line": 0, "ops": ops, "flavour": flavour,
-                "array_nonint": any(s["pos"] == "array-length" and c13gen.has_nonint_sub(s["expr"], "int")
-                                    for s in m.sites),
+        maxarity = 0
+        for mm in mods.values():
+            for s in mm.sites:
+                c13gen.ops_of(s["expr"], ops)
+                maxarity = max(maxarity, c13gen.max_arity(s["expr"]))
+        case = {"files": {k: v.text() for k, v in mods.items()}, "expect": "accept", "rule": "valid", "line": 0,
+                "ops": ops, "flavour": flavour, "nfiles": len(mods), "max_arity": maxarity,
                 "depth": m.meta["depth"], "positions": sorted(set(s["pos"] for s in m.sites))}
         yield case
         for _ in range(2):
-            m2 = c13gen.gen_valid(r, maxdepth=r.randint(1, 4), n_items=r.randint(3, 9))
+            mods2 = c13gen.gen_set(r, maxdepth=r.randint(1, 4), n_items=r.randint(3, 9))
+            target = "m.emb" if len(mods2) == 1 or r.random() < 0.75 else r.choice(sorted(set(mods2) - {"m.emb"}))
             info = None
             for _try in range(8):
-                info = c13gen.mutate(r, m2)
+                info = c13gen.mutate(r, mods2[target])
                 if info:
                     break
             if not info:
                 continue
-            yield {"text": m2.text(), "expect": "reject", "rule": info["rule"], "line": info["line"],
-                   "pos": info["pos"], "detail": info.get("expr", "")}
+            yield {"files": {k: v.text() for k, v in mods2.items()}, "expect": "reject", "rule": info["rule"],
+                   "line": info["line"], "file": target, "nfiles": len(mods2),
+                   "pos": info["pos"], "detail": info.get("detail") or info.get("expr", "")}
+
+
+def boundary_cases(r):
+    """Deterministic sweeps over the sizes of every n-ary construct (arities well beyond the
+    usual) and over the same-named-enum matrix; each module breaks the rules on *many* known
+    lines at once (`annotate_types` / `check_types` report every offence of their pass), and
+    must be clean on the others."""
+    return [dict(c, expect="lines") for c in c13gen.boundary_modules(r)]
 
 
 # ---------------------------------------------------------------- run
+NPROC = int(os.environ.get("C13_NPROC", "3"))
+
+
+def _work(arg):
+    """one case on the real front end (forked worker): real outcome, model input, canonical real outcome."""
+    case, model_ok = arg
+    files = case.get("files") or {"m.emb": case["text"]}
+    main = case.get("main", "m.emb")
+    out = real_outcome(files, main)
+    line, why, cr = None, None, None
+    if model_ok:
+        line, w = model_input(files, main)
+        if line is None:
+            why = w
+        else:
+            cr = canon_real(out, w)
+    return out, line, why, cr
+
+
 def evaluate(chk, cases, model_ok, stats):
     """cases: list of dicts with files/text.  Runs real + oracle; then the model in one batch."""
     ops, pending = [], []
-    for case in cases:
+    args = [(c, model_ok) for c in cases]
+    if NPROC > 1 and len(cases) > 3:
+        import multiprocessing
+        with multiprocessing.get_context("fork").Pool(NPROC) as pool:
+            results = pool.map(_work, args, chunksize=2)
+    else:
+        results = [_work(a) for a in args]
+    for case, (out, line, why, cr) in zip(cases, results):
         files = case.get("files") or {"m.emb": case["text"]}
         main = case.get("main", "m.emb")
-        out = real_outcome(files, main)
         chk.count()
         stats["real_" + out["kind"]] = stats.get("real_" + out["kind"], 0) + 1
         if case.get("expect"):
             verdict = oracle(case, out)
             if verdict:
-                why, key = verdict
-                chk.violation("input", {"input": case.get("text") or files, "main": main,
-                                        "expected": "accepted" if case["expect"] == "accept" else
-                                        "rejected with a located error on line %s (rule %s)" % (case.get("line"), case.get("rule")),
-                                        "observed": why, "rule": case.get("rule")}, key=key)
+                why_, key = verdict
+                if case["expect"] == "accept":
+                    exp = "accepted"
+                elif case["expect"] == "lines":
+                    exp = "rejected, with a non-synthetic error on each of the lines %s and on no other line" % (
+                        json.dumps(case["lines"])[:300])
+                else:
+                    exp = "rejected with a located error on line %s of %s (rule %s)" % (
+                        case.get("line"), case.get("file", "m.emb"), case.get("rule"))
+                chk.violation("input", {"input": case.get("text") or files, "main": main, "expected": exp,
+                                        "observed": why_, "rule": case.get("rule"), "detail": case.get("detail")},
+                              key=key)
                 stats["oracle_failures"] = stats.get("oracle_failures", 0) + 1
         if out["kind"] == "rejected":
             for g in out["groups"]:
@@ -567,27 +619,36 @@ def evaluate(chk, cases, model_ok, stats):
             stats["crash_sites"][out["key"]] = stats["crash_sites"].get(out["key"], 0) + 1
         if not model_ok:
             continue
-        line, w = model_input(files, main)
         if line is None:
-            stats["no_model_input:" + w.split(":")[0]] = stats.get("no_model_input:" + w.split(":")[0], 0) + 1
+            stats["no_model_input:" + why.split(":")[0]] = stats.get("no_model_input:" + why.split(":")[0], 0) + 1
             continue
         ops.append(line)
-        pending.append((case, files, main, out, w))
+        pending.append((case, files, main, out, cr))
     if not ops:
         return
     answers = common.Model("model_c13").ask(ops)
-    for (case, files, main, out, w), op, ans in zip(pending, ops, answers):
+    for (case, files, main, out, cr), op, ans in zip(pending, ops, answers):
         stats["model_compared"] = stats.get("model_compared", 0) + 1
         if ans == "bad-op":
             chk.violation("correspondence", {"input": case.get("text") or files, "op": op[:2000], "model": ans,
                                              "theorem_or_correspondence": "walker produced an op the driver rejects"},
                           found_input=False)
             continue
-        cm, cr = canon_model(ans), canon_real(out, w)
+        cm = canon_model(ans)
         if cr == "other":
             # rejected by a check that is not C13's: the modelled passes must not have objected
             # (errors of one pass only are ever reported), unless an earlier unmodelled pass stopped first
             stats["real_other_model_" + cm.split(" ")[0]] = stats.get("real_other_model_" + cm.split(" ")[0], 0) + 1
+            if out.get("late") and cm.startswith(("rejected 1", "rejected 2", "crashed")):
+                # annotate_types / check_types let the module through (another check objected, in their pass
+                # or later) although the model rejects it there
+                stats["disagreements"] = stats.get("disagreements", 0) + 1
+                if not (case.get("expect") and oracle(case, out)):
+                    chk.violation("correspondence", {
+                        "input": case.get("text") or files, "main": main, "op": op[:3000], "model": cm,
+                        "observed": "passed annotate_types/check_types; rejected later: %s" % out.get("unknown"),
+                        "rule": case.get("rule"),
+                        "theorem_or_correspondence": "model_c13 TYPE vs glue.parse_emboss_file"}, found_input=False)
             continue
         chk.nontrivial(cm)
         if cm != cr:
@@ -597,7 +658,7 @@ def evaluate(chk, cases, model_ok, stats):
                 continue        # already reported as a failing input (or known finding) above
             chk.violation("correspondence", {
                 "input": case.get("text") or files, "main": main, "op": op[:3000], "model": cm, "observed": cr,
-                "expected": "model and real front end agree on outcome, pass, and (location, class) set",
+                "expected": "model and real front end agree on outcome, pass, and (location, file, class) set",
                 "rule": case.get("rule"),
                 "theorem_or_correspondence": "model_c13 TYPE vs glue.parse_emboss_file"},
                 found_input=False)
@@ -609,7 +670,7 @@ def run_known_findings(chk):
         if k.get("property") != PROP or k.get("status") != "open":
             continue
         case = {"text": k["input"], "expect": k.get("expect", "reject"), "line": k.get("line", 0),
-                "rule": k.get("rule", "known"), "array_nonint": True}
+                "rule": k.get("rule", "known")}
         out = real_outcome({"m.emb": k["input"]})
         verdict = oracle(case, out)
         if verdict:
@@ -621,7 +682,7 @@ def search(chk):
     before = len(chk.violations)
     r = common.rng("C13-search")
     stats = {}
-    cases = [c for c in corpus_cases()] + list(gen_cases(r, 60, "quick"))
+    cases = [c for c in corpus_cases()] + boundary_cases(common.rng("C13-boundary")) + list(gen_cases(r, 60, "quick"))
     evaluate(chk, cases, False, stats)
     return len(chk.violations) - before
 
@@ -629,7 +690,7 @@ def search(chk):
 def run(tier):
     chk = common.Check(PROP, tier, exes=["model_c13"])
     chk.cov["rule"] = ("modules from the type-directed generator (valid + one catalogue mutation), /repo/testdata, "
-                       "corpus/C13; non-trivial = distinct canonical outcome (accepted / rejected pass + "
+                       "corpus/C13, boundary sweeps (arity of every n-ary construct, namesake enums across modules); non-trivial = distinct canonical outcome (accepted / rejected pass + "
                        "(location, class) set / crash site) on which model and real front end were compared")
     model_ok = common.proof_gate(chk, search)
     stats = {}
@@ -641,13 +702,25 @@ def run(tier):
         cases.append({"files": td, "main": name, "name": name})
     evaluate(chk, cases, model_ok, stats)
     stats["corpus_and_testdata"] = len(cases)
-    # 2. generated
+    # 2. boundary enumeration: arities of every n-ary construct, same-named enums of different modules
+    bnd = boundary_cases(common.rng("C13-boundary"))
+    evaluate(chk, bnd, model_ok, stats)
+    chk.extra["boundary"] = {c["name"]: {"lines": sum(len(t.splitlines()) for t in c["files"].values()),
+                                         "offending_lines": sum(len(v) for v in c["lines"].values()),
+                                         "files": len(c["files"])} for c in bnd}
+    # 3. generated
     r = common.rng("C13")
-    n = 70 if tier == "quick" else 600
+    n = 60 if tier == "quick" else 600
     gen = list(gen_cases(r, n, tier))
-    ops, rules, positions, depths = {}, {}, {}, {}
+    ops, rules, positions, depths, nfiles, arities, mutfile = {}, {}, {}, {}, {}, {}, {}
     for c in gen:
         rules[c["rule"].split(":")[0]] = rules.get(c["rule"].split(":")[0], 0) + 1
+        nfiles[c["nfiles"]] = nfiles.get(c["nfiles"], 0) + 1
+        if "max_arity" in c:
+            b = "<=3" if c["max_arity"] <= 3 else "4-8" if c["max_arity"] <= 8 else "9-16" if c["max_arity"] <= 16 else ">16"
+            arities[b] = arities.get(b, 0) + 1
+        if c["expect"] == "reject":
+            mutfile[c["file"]] = mutfile.get(c["file"], 0) + 1
         for k, v in c.get("ops", {}).items():
             ops[k] = ops.get(k, 0) + v
         for p in c.get("positions", []):
@@ -657,15 +730,19 @@ def run(tier):
     for i in range(0, len(gen), 200):
         evaluate(chk, gen[i:i + 200], model_ok, stats)
     for c in gen[:2] + [c for c in gen if c["expect"] == "reject"][:3]:
-        chk.sample({"rule": c["rule"], "line": c["line"], "emb": c["text"][:1500]})
-    chk.extra["generator"] = {"modules": len(gen), "rules": rules, "operators_in_valid_modules": ops,
-                              "positions_in_valid_modules": positions, "nesting_depth_of_valid_modules": depths}
+        chk.sample({"rule": c["rule"], "line": c["line"], "file": c.get("file"),
+                    "emb": {k: v[:1200] for k, v in c["files"].items()}})
+    chk.extra["generator"] = {"module_sets": len(gen), "rules": rules, "operators_in_valid_modules": ops,
+                              "positions_in_valid_modules": positions, "nesting_depth_of_valid_modules": depths,
+                              "files_per_set": nfiles, "largest_call_arity_in_valid_sets": arities,
+                              "mutated_file": mutfile}
     chk.extra["stats"] = stats
     chk.extra["traces_validated_against_impl"] = stats.get("model_compared", 0)
     chk.extra["disagreements"] = stats.get("disagreements", 0)
     chk.assumptions = [
         "name resolution (C12) is taken from the real IR: the walker inlines the read_transform of referenced virtual fields",
         "constancy of attribute values is approximated by closedness (no field/parameter reference); constant folding is C05's",
+        "three unguarded `.type.which_type` reads (check_types on an array parameter / an untyped argument, attribute validators on an untyped value) are modelled as raising; they are reachable only after annotate_types reported errors that are all synthetic (C13_total_partial)",
         "attribute placement / duplicates / unknown names are C14's; only the value typing of the ten front-end attributes is modelled",
     ]
     chk.trusted.append("harness/corr/C13.py Walker: JSON IR -> model input (independent re-reading of the schema)")
